@@ -1,0 +1,170 @@
+//go:build verif
+
+package spine
+
+import (
+	"encoding/json"
+	"fmt"
+	"os"
+	"sync"
+
+	"github.com/enbility/spine-go/model"
+)
+
+// State tracing for trace validation (build tag "verif" only): if the
+// environment variable VERIF_SUITE_TRACE names a file, every process built with
+// the tag appends one ndjson line per registry change, message counter and
+// heartbeat refresh to <file>.<pid>. The lines are written at the hook points,
+// i.e. while the lock that protects the recorded state is still held, and carry
+// a process wide sequence number. Nothing is recorded, and no hook is installed,
+// if the variable is not set.
+
+type verifTraceEntry struct {
+	Id uint64 `json:"id"`
+	C  string `json:"c"`
+	S  string `json:"s"`
+}
+
+type verifTraceLine struct {
+	Seq     uint64            `json:"seq"`
+	Ev      string            `json:"ev"`
+	Op      string            `json:"op"`
+	Obj     string            `json:"obj"`
+	Ctr     uint64            `json:"ctr"`
+	Entries []verifTraceEntry `json:"entries"`
+}
+
+var verifTrace struct {
+	mu   sync.Mutex
+	f    *os.File
+	seq  uint64
+	objs map[any]int // recorded objects (kept alive, so that an address is never used for a second object)
+}
+
+// a process wide serial number for a recorded object
+func verifTraceObj(o any) string {
+	verifTrace.mu.Lock()
+	defer verifTrace.mu.Unlock()
+	if verifTrace.objs == nil {
+		verifTrace.objs = map[any]int{}
+	}
+	n, ok := verifTrace.objs[o]
+	if !ok {
+		n = len(verifTrace.objs) + 1
+		verifTrace.objs[o] = n
+	}
+	return fmt.Sprintf("o%d", n)
+}
+
+func init() {
+	name := os.Getenv("VERIF_SUITE_TRACE")
+	if name == "" {
+		return
+	}
+	f, err := os.OpenFile(fmt.Sprintf("%s.%d", name, os.Getpid()), os.O_CREATE|os.O_WRONLY|os.O_APPEND, 0o644)
+	if err != nil {
+		return
+	}
+	verifTrace.f = f
+	VerifSetHook(verifTraceHook)
+}
+
+// VerifTraceMark writes a marker line (the harness marks the start of every behaviour it replays, so that a line of
+// the trace can be attributed to a behaviour); no-op when tracing is off
+func VerifTraceMark(mark string) {
+	verifTrace.mu.Lock()
+	defer verifTrace.mu.Unlock()
+	if verifTrace.f == nil {
+		return
+	}
+	verifTrace.seq++
+	if b, err := json.Marshal(verifTraceLine{Seq: verifTrace.seq, Ev: "mark", Op: mark, Entries: []verifTraceEntry{}}); err == nil {
+		_, _ = verifTrace.f.Write(append(b, '\n'))
+	}
+}
+
+func verifTraceAddr(a *model.FeatureAddressType) (s string) {
+	defer func() {
+		if r := recover(); r != nil {
+			s = "?"
+		}
+	}()
+	if a == nil {
+		return "nil"
+	}
+	dev := "-"
+	if a.Device != nil {
+		dev = string(*a.Device)
+	}
+	feat := "-"
+	if a.Feature != nil {
+		feat = fmt.Sprint(uint(*a.Feature))
+	}
+	return fmt.Sprintf("%s%v/%s", dev, a.Entity, feat)
+}
+
+func verifTraceHook(point string, args ...any) {
+	line := verifTraceLine{Entries: []verifTraceEntry{}}
+	if len(args) == 0 {
+		return
+	}
+	last := args[len(args)-1]
+	// the address of a mocked feature cannot be asked for: recorded as "?"
+	entry := func(id uint64, client, server func() *model.FeatureAddressType) (e verifTraceEntry) {
+		e = verifTraceEntry{Id: id, C: "?", S: "?"}
+		defer func() { _ = recover() }()
+		e.C = verifTraceAddr(client())
+		e.S = verifTraceAddr(server())
+		return e
+	}
+	switch point {
+	case "AddBinding.inserted", "RemoveBinding.stored", "RemoveBindingsForEntity.stored":
+		c, ok := last.(*BindingManager)
+		if !ok {
+			return
+		}
+		line.Ev, line.Op, line.Obj = "bind", "remove", verifTraceObj(c)
+		if point == "AddBinding.inserted" {
+			line.Op = "insert"
+		}
+		for _, item := range c.bindingEntries {
+			item := item
+			line.Entries = append(line.Entries, entry(item.Id, item.ClientFeature.Address, item.ServerFeature.Address))
+		}
+	case "AddSubscription.inserted", "RemoveSubscription.stored", "RemoveSubscriptionsForEntity.stored":
+		c, ok := last.(*SubscriptionManager)
+		if !ok {
+			return
+		}
+		line.Ev, line.Op, line.Obj = "sub", "remove", verifTraceObj(c)
+		if point == "AddSubscription.inserted" {
+			line.Op = "insert"
+		}
+		for _, item := range c.subscriptionEntries {
+			item := item
+			line.Entries = append(line.Entries, entry(item.Id, item.ClientFeature.Address, item.ServerFeature.Address))
+		}
+	case "Sender.counter":
+		c, ok := last.(*Sender)
+		if !ok || len(args) < 2 {
+			return
+		}
+		line.Ev, line.Op, line.Obj = "ctr", "draw", verifTraceObj(c)
+		line.Ctr, _ = args[0].(uint64)
+	case "Heartbeat.tick":
+		if len(args) < 2 {
+			return
+		}
+		line.Ev, line.Op, line.Obj = "hb", "tick", verifTraceObj(args[0])
+		line.Ctr, _ = args[1].(uint64)
+	default:
+		return
+	}
+	verifTrace.mu.Lock()
+	defer verifTrace.mu.Unlock()
+	verifTrace.seq++
+	line.Seq = verifTrace.seq
+	if b, err := json.Marshal(line); err == nil {
+		_, _ = verifTrace.f.Write(append(b, '\n'))
+	}
+}
